@@ -555,6 +555,44 @@ class _Run:
             else:
                 del wk[:]
             self.log.add("walker", "clear")
+        elif m in ("pop", "remove", "extend", "iadd", "reverse", "sort", "slice_assign", "slice_delete", "list_clear") and custom:
+            self.log.add("walker", f"{m} skipped (custom walker)")
+        elif m == "pop":
+            if n:
+                i = op.get("i", 0) % n
+                wk.pop(i)
+                self.log.add("walker", ["pop", i])
+        elif m == "remove":
+            if n:
+                i = op.get("i", 0) % n
+                wk.remove(wk[i])
+                self.log.add("walker", ["remove", i])
+        elif m in ("extend", "iadd"):
+            new = [build_item(it) for it in op.get("items", [{"k": "text", "text": "ext"}])]
+            if m == "extend":
+                wk.extend(new)
+            else:
+                wk += new
+            self.log.add("walker", [m, len(new)])
+        elif m == "reverse":
+            wk.reverse()
+            self.log.add("walker", "reverse")
+        elif m == "sort":
+            wk.sort(key=lambda w: w.rows((7,)))
+            self.log.add("walker", "sort")
+        elif m in ("slice_assign", "slice_delete"):
+            a = op.get("i", 0) % (n + 1)
+            b = min(n, a + op.get("len", 1))
+            if m == "slice_assign":
+                wk[a:b] = [build_item(it) for it in op.get("items", [])]
+            else:
+                del wk[a:b]
+            self.log.add("walker", [m, a, b, len(op.get("items", []))])
+            if fpos is not None and a <= fpos < b:
+                self.res.probe("slice_edit_covers_focus")
+        elif m == "list_clear":
+            wk.clear()
+            self.log.add("walker", "list_clear")
         else:
             raise core.HarnessError(f"unknown walker op {m}")
 
@@ -855,9 +893,17 @@ class ListBoxEngine(Engine):
                 ops.append({"op": "valign", "v": rng.choice(VALIGNS)})
             elif q < 0.75:
                 m = rng.choice(["insert"] * 6 + ["delete"] * 5 + ["replace"] * 4 + ["clear"])
+                if rng.random() < 0.3:
+                    # the other list methods of the two bundled walkers (they are MonitoredLists)
+                    m = rng.choice(["pop", "remove", "extend", "iadd", "reverse", "sort", "slice_assign", "slice_assign", "slice_delete", "list_clear"])
                 op = {"op": "walker", "m": m, "i": rng.randrange(12)}
                 if m in ("insert", "replace"):
                     op["item"] = self.gen_item(rng, next(tagc))
+                if m in ("extend", "iadd", "slice_assign"):
+                    op["items"] = [self.gen_item(rng, next(tagc)) for _ in range(rng.randint(0, 3))]
+                    op["len"] = rng.randint(0, 3)
+                if m == "slice_delete":
+                    op["len"] = rng.randint(0, 3)
                 ops.append(op)
             elif q < 0.80:
                 ops.append({"op": "resize", "size": [rng.randint(1, 30) if rng.random() < 0.5 else rng.choice(COLS), rng.randint(1, 12)]})
